@@ -10,3 +10,5 @@ CONSTANTS
   MaxFaults = 1
   MaxCrashes = 1
   MayPause = FALSE
+  StopOnAckFailure = TRUE
+  RetryAfterPause = FALSE
